@@ -20,7 +20,7 @@ PROPS = {
         excluded=[],
     ),
     "C04": dict(
-        units=["circuit", "cbcall"],
+        units=["circuit", "cbcall", "builders"],
         title="Circuit breaker state machine",
         level_text="Deductive proof (Verus): every kernel operation of the breaker is proved against the documented machine stated over ghost history "
                    "(count-based: counters equal the counts of the history since the last transition; time-based: exact eviction of the expired prefix, statistics equal counts of the live records); "
